@@ -78,6 +78,14 @@ func genC01(tier string, run int, r *simcore.Rand) *harness.Plan {
 		pool[i] = sim.Materialise(sp)
 	}
 	cfg := Config{Root: root, Blobs: specs}
+	if hasType(root, "blobpacked") && r.Bool(0.5) {
+		// a file at/above the packing threshold, chunks and schema blobs in
+		// the pool: when its file blob is received after its chunks, the
+		// composition really packs, and later operations hit packed blobs
+		f := c04File{Name: "c01.dat", Size: (512 << 10) + r.Intn(4000), Chunk: []int{64 << 10, 100000, 256 << 10}[r.Intn(3)], Irreg: r.Bool(0.3), Nested: r.Bool(0.4), Salt: r.Uint64(), SameAs: -1}
+		cfg.Files = []c04File{f}
+		pool = poolOf(&cfg)
+	}
 	// preseed direct kids of a union / replica / overlay root
 	switch root.Type {
 	case "union", "replica", "overlay":
@@ -112,6 +120,17 @@ func genC01(tier string, run int, r *simcore.Rand) *harness.Plan {
 	canRestart := wantRestart && !hasType(root, "memory")
 	nops := r.Range(8, 60)
 	ops := genOps(r, nops, pool, specs, canRestart, weights)
+	if len(cfg.Files) > 0 && r.Bool(0.8) {
+		// upload the file's blobs in dependency order (file blob last) at a
+		// seeded point, so the pack happens and the rest of the history runs
+		// against packed blobs
+		at := r.Intn(len(ops)/2 + 1)
+		var up []sim.Op
+		for i := len(specs); i < len(pool); i++ {
+			up = append(up, sim.Op{Kind: "recv", B: []int{i}})
+		}
+		ops = append(ops[:at:at], append(up, ops[at:]...)...)
+	}
 	p := &harness.Plan{Mode: "exact", Config: harness.MustJSON(cfg), Bubble: true}
 	p.LockYield = []int{0, 0, 20, 200, 1000}[r.Intn(5)]
 	p.Sticky = []int{0, 500, 900}[r.Intn(3)]
@@ -236,12 +255,23 @@ func newSessionEnv(rc *harness.RunCtx, cfg *Config, env *sim.Env, scratch string
 		return nil, err
 	}
 	s.world.KeyFile = kf
-	s.pool = make([]*sim.TBlob, len(cfg.Blobs))
-	for i, sp := range cfg.Blobs {
-		s.pool[i] = sim.Materialise(sp)
-	}
+	s.pool = poolOf(cfg)
 	s.model = sim.NewModel(s.pool, capsOf(cfg.Root))
 	return s, nil
+}
+
+// poolOf materialises the blob pool of a configuration: the generated blobs
+// followed by the blobs of the packable files.
+func poolOf(cfg *Config) []*sim.TBlob {
+	pool := make([]*sim.TBlob, len(cfg.Blobs))
+	for i, sp := range cfg.Blobs {
+		pool[i] = sim.Materialise(sp)
+	}
+	if len(cfg.Files) > 0 {
+		w := buildC04(&c04Config{Files: cfg.Files})
+		pool = append(pool, w.pool...)
+	}
+	return pool
 }
 
 func (s *session) build() error {
